@@ -118,6 +118,19 @@ Theorem C10_race_allowed_cases : forall admin pre t r, race_allowed admin pre t 
   r = spec_role admin pre t \/ (t <> admin /\ r = NoTok) \/ (t = admin /\ r = Admin).
 Proof. exact race_allowed_cases. Qed.
 
+(* an authentication's verdict is a function of (admin token, table, its own token): the other authentications
+   that overlap or precede it - of whatever tokens, valid or not, on either transport - do not influence it *)
+Theorem C10_auths_do_not_interfere : forall admin others st,
+  forallb is_auth others = true -> run admin st others = st.
+Proof. exact auths_do_not_interfere. Qed.
+
+Theorem C10_verdict_depends_on_own_token_only : forall admin others st o,
+  forallb is_auth others = true -> is_auth o = true ->
+  outcome_of admin (run admin st others) o = outcome_of admin st o.
+Proof. exact verdict_depends_on_own_token_only. Qed.
+
+Print Assumptions C10_auths_do_not_interfere.
+Print Assumptions C10_verdict_depends_on_own_token_only.
 Print Assumptions C10_failed_op_changes_nothing.
 Print Assumptions C10_failed_op_not_success.
 Print Assumptions C10_failed_ops_erasable.
